@@ -3,6 +3,7 @@
 package harness
 
 import (
+	"codeberg.org/TauCeti/mangle-go/ast"
 	"fmt"
 	"runtime/debug"
 	"strings"
@@ -32,7 +33,35 @@ func runC17Lattice(r *simrt.Run, tier Tier) Outcome {
 	preload := !r.OneIn(3, "c17l.inline-base")
 	var base []Fact
 	var decls, clauses []string
+	temporalDiv := false
+	divKind := 0
 	if diverges {
+		divKind = r.Choose(3, "c17l.divkind")
+	}
+	switch {
+	case diverges && divKind == 1:
+		// one key whose value grows for ever under a merge that keeps the larger
+		// value: every round replaces the fact, the store never grows
+		decls = append(decls, "Decl cnt(K, V) descr [fundep([K], [V]), merge([V], \"maxv\")].",
+			"Decl maxv(A, B, C) descr [mode('+', '+', '-'), deferred()].")
+		clauses = append(clauses, "maxv(A, B, C) :- A < B, C = B.", "maxv(A, B, C) :- B <= A, C = A.")
+		base = append(base, Fact{Pred: "dseed", Args: []Val{IntV(0)}})
+		decls = append(decls, "Decl dseed(A).")
+		clauses = append(clauses, "cnt(/a, X) :- dseed(X).")
+		if r.Bool("c17l.samekey.let") {
+			clauses = append(clauses, fmt.Sprintf("cnt(K, W) :- cnt(K, V) |> let W = fn:plus(V, %d).", 1+r.Choose(3, "c17l.samekey.step")))
+		} else {
+			clauses = append(clauses, fmt.Sprintf("cnt(K, W) :- cnt(K, V), W = fn:plus(V, %d).", 1+r.Choose(3, "c17l.samekey.step")))
+		}
+		r.Probe("lattice-same-key-diverging")
+	case diverges && divKind == 2:
+		// derived facts with an interval go to the temporal store only
+		temporalDiv = true
+		decls = append(decls, "Decl tn(X) temporal.")
+		clauses = append(clauses, fmt.Sprintf("tn(0)%s.", c14Iv{3, 3 + int64(r.Choose(4, "c17l.tdiv.len"))}.ann()),
+			fmt.Sprintf("tn(Y)@[S, E] :- tn(X)@[S, E], Y = fn:plus(X, %d).", 1+r.Choose(3, "c17l.tdiv.step")))
+		r.Probe("temporal-diverging")
+	case diverges:
 		decls = append(decls, "Decl best(L, S) descr [fundep([L], [S]), merge([S], \"minv\")].")
 		k1 := 1 + r.Choose(3, "c17l.step")
 		k2 := r.Choose(4, "c17l.cost")
@@ -43,9 +72,14 @@ func runC17Lattice(r *simrt.Run, tier Tier) Outcome {
 		if r.Bool("c17l.second-rule") {
 			clauses = append(clauses, fmt.Sprintf("best(L2, S2) :- best(L, S), L2 = fn:plus(L, %d), S2 = fn:plus(S, 1).", k1))
 		}
-	} else {
+	default:
 		d, c, b := genShortestLattice(r)
 		decls, clauses, base = append(decls, d...), append(clauses, c...), append(base, b...)
+		if r.OneIn(3, "c17l.worse") {
+			// a rule that keeps deriving a value the merge throws away: nothing new, evaluation must end
+			clauses = append(clauses, fmt.Sprintf("dist(X, %d) :- dist(X, D).", 60+r.Choose(40, "c17l.worse.v")))
+			r.Probe("lattice-rederives-dominated-value")
+		}
 	}
 	var baseText []string
 	for _, f := range base {
@@ -105,8 +139,8 @@ func runC17Lattice(r *simrt.Run, tier Tier) Outcome {
 		if limit > 0 {
 			opts = append(opts, engine.WithCreatedFactLimit(limit))
 		}
-		if withTemporal {
-			opts = append(opts, engine.WithTemporalStore(factstore.NewTemporalStore()))
+		if withTemporal || temporalDiv {
+			opts = append(opts, engine.WithTemporalStore(countingTemporalStore{TemporalFactStore: factstore.NewTemporalStore(), created: &out.created, budget: budget}))
 		}
 		if cfg.Determ {
 			opts = append(opts, engine.WithDeterministicOrder())
@@ -212,3 +246,21 @@ func genShortestLattice(r *simrt.Run) (decls, clauses []string, base []Fact) {
 }
 
 const latticeMinDecl = "Decl minv(A, B, C) descr [mode('+', '+', '-'), deferred()].\nminv(A, B, C) :- A < B, C = A.\nminv(A, B, C) :- B <= A, C = B.\n"
+
+// countingTemporalStore counts the temporal facts created through it.
+type countingTemporalStore struct {
+	factstore.TemporalFactStore
+	created *int
+	budget  int
+}
+
+func (c countingTemporalStore) Add(a ast.Atom, i ast.Interval) (bool, error) {
+	ok, err := c.TemporalFactStore.Add(a, i)
+	if ok {
+		*c.created++
+		if *c.created > c.budget {
+			panic(budgetExceeded{*c.created})
+		}
+	}
+	return ok, err
+}
